@@ -81,7 +81,7 @@ class Generic(Registry):
         """Create a debug message.
         """
         return Generic.bound('debug', self.proto_version)(
-            debug_level=level, debug_msg=message
+            level=level, msg=message
         )
 
     def create_verbose(self, message: bytes) -> HubMessage:
